@@ -739,7 +739,7 @@ P('C03-C', 'C03', 'C03.R4'); P('C03-D', 'C03', 'C03.R5')
 P('C04-C', 'C04', 'C04.R1'); P('C04-D', 'C04', 'C04.R3')
 P('C05-C', 'C05', 'C05.R3'); P('C05-D', 'C05', 'C05.R2')
 P('C06-C', 'C06', 'C06.R7'); P('C06-D', 'C06', 'C06.R8')
-P('C07-C', 'C17', 'C17.R5'); P('C07-D', 'C12', 'C12.R1')
+P('C07-D', 'C12', 'C12.R1')
 P('C08-C', 'C08', 'C08.R1'); P('C08-D', 'C08', 'C08.R2')
 P('C11-C', 'C11', 'C11.R2'); P('C11-D', 'C11', 'C11.R1')
 P('C14-C', 'C14', 'C14.R1'); P('C14-D', 'C07', 'C07.R1')
@@ -751,8 +751,8 @@ P('C20-C', 'C20', 'C20.R1'); P('C20-D', 'C20', 'C20.R2')
 # ---- independently written behaviour-preserving refactorings: every check must stay silent (DESIGN 7.4)
 ALL_PROPS = ['C%02d' % i for i in range(1, 21)]
 for _r in ('R1-1', 'R1-2', 'R1-3', 'R1-4', 'R2-1', 'R2-2', 'R2-3', 'R2-4', 'R3-1', 'R3-2', 'R3-3', 'R3-4', 'R4-1', 'R4-2', 'R4-3', 'R4-4',
-           'R6-1', 'R6-2', 'R6-3', 'R6-4', 'R7-1', 'R7-2', 'R7-3', 'R7-4', 'R8-1', 'R8-2', 'R8-3', 'R9-1', 'R9-2', 'R9-3', 'R9-4',
-           'R10-1', 'R10-2', 'R10-3', 'R10-4', 'R11-1', 'R11-2', 'R11-3', 'R11-4', 'R12-1', 'R12-2', 'R12-3', 'R13-1', 'R13-2', 'R13-3', 'R13-4'):
+           'R6-1', 'R6-2', 'R6-3', 'R6-4', 'R7-1', 'R7-2', 'R7-3', 'R7-4', 'R8-1', 'R8-2', 'R8-3', 'R8-4', 'R9-1', 'R9-2', 'R9-3', 'R9-4',
+           'R10-1', 'R10-2', 'R10-3', 'R10-4', 'R11-1', 'R11-2', 'R11-3', 'R11-4', 'R12-1', 'R12-2', 'R12-3', 'R12-4', 'R13-1', 'R13-2', 'R13-3', 'R13-4'):
     CORPUS.append({'id': 'S/' + _r + '-silent', 'props': ALL_PROPS, 'rule': None, 'expect': 'silent', 'edits': [],
                    'patch': 'seeded_benign/%s/patch.diff' % _r, 'tolerate_rekeyed': True})
 
@@ -775,6 +775,7 @@ P('C17-E', 'C17', 'C17.R7'); P('C17-F', 'C17', 'C17.R1')
 P('C18-E', 'C17', 'C17.R1'); P('C18-F', 'C10', 'C10.R1')
 P('C19-E', 'C19', 'C19.R1'); P('C19-F', 'C15', 'C15.R6')
 P('C20-E', 'C20', 'C20.R2')
+P('C07-E', 'C07', 'C07.R9')
 B('c02-ply-built-in-helper-of-init', 'C02', edits=[
   (SQP, "        self.lex = lex.lex(\n            module=lexer,\n            optimize=True,\n            debug=False,\n            outputdir=output_dir)\n",
         "        self.lex = self._build_lexer(output_dir)\n"),
@@ -796,4 +797,15 @@ P('C13-G', 'C13', 'C13.R1'); P('C13-H', 'C13', 'C13.R3')
 P('C16-G', 'C16', 'C16.R9'); P('C16-H', 'C16', 'C16.R9')
 P('C17-G', 'C17', 'C17.R2'); P('C17-H', 'C17', 'C17.R2')
 P('C18-G', 'C10', 'C10.R1'); P('C18-H', 'C18', 'C18.R1')
+# round 5, second half (value-flow changes for the other ten properties)
+P('C02-G', 'C02', 'C02.R5'); P('C02-H', 'C02', 'C02.R4')
+P('C04-G', 'C04', 'C04.R1'); P('C04-H', 'C04', 'C04.R3')
+P('C05-G', 'C05', 'C05.R3'); P('C05-H', 'C05', 'C05.R1')
+P('C06-G', 'C06', 'C06.R8'); P('C06-H', 'C06', 'C06.R9')
+P('C07-G', 'C07', 'C07.R9'); P('C07-H', 'C07', 'C07.R8')
+P('C08-G', 'C08', 'C08.R1'); P('C08-H', 'C08', 'C08.R2')
+P('C14-G', 'C14', 'C14.R1'); P('C14-H', 'C14', 'C14.R5')
+P('C15-G', 'C15', 'C15.R5'); P('C15-H', 'C15', 'C15.R1')
+P('C19-G', 'C19', 'C19.R1'); P('C19-H', 'C19', 'C19.R3')
+P('C20-G', 'C20', 'C20.R1'); P('C20-H', 'C20', 'C20.R2')
 B('c16-finally-guarded-delete', 'C16', SQP, "            return ast.eval(state)\n", "            try:\n                return ast.eval(state)\n            finally:\n                if '__tmp__' in scoped_names.scopes[-1]:\n                    del scoped_names.scopes[-1]['__tmp__']\n")
